@@ -87,6 +87,7 @@ type FuncSpec struct {
 	Ensures   []*Clause
 	REnsures  []*Clause // proved with rely-havoc of atomic cells switched on
 	Maintains []*Clause // Text = variable name
+	Establishes []*Clause // ensures every inv clause of the named (result) object
 	Assigns   []string
 	HasAssigns bool
 	LoopInvs  []*Clause
@@ -428,6 +429,8 @@ func (sp *Specs) parseFile(repo, file string) error {
 			}
 		case "maintains":
 			curF.Maintains = append(curF.Maintains, &Clause{Kind: "maintains", Props: props, Text: rest, File: file, Line: pendingLine})
+		case "establishes":
+			curF.Establishes = append(curF.Establishes, &Clause{Kind: "establishes", Props: props, Text: rest, File: file, Line: pendingLine})
 		case "assigns":
 			curF.HasAssigns = true
 			if rest != "nothing" {
